@@ -52,6 +52,7 @@ func monitors(cfg cfgT, log []event) (fails []fail, evals int) {
 		fails = append(fails, fail{Monitor: mon, Sig: sig, Detail: detail, Event: ec})
 	}
 	leases := map[int]*leaseMon{}
+	acqxOK := map[string]int{} // lease id -> successful AcquireExisting calls so far
 	var cur *leaseMon
 	loopCID := "" // last answer of a loop-top ClusterID call
 	svcCID := ""  // the lease service's cluster id as last reported to / set by the node
@@ -154,6 +155,13 @@ func monitors(cfg cfgT, log []event) (fails []fail, evals int) {
 						add("C08.own-cluster-only", "own-cluster/"+e.C+"/loop-check=foreign",
 							fmt.Sprintf("%s called although the lease service reported cluster id %q and the stored one is %q", e.C, loopCID, e.Local), e)
 					}
+					if e.C == "ACQX" {
+						evals++
+						if framesBefore(log[:i], e.LeaseID) <= acqxOK[e.LeaseID] {
+							add("C08.handoff-only-to-requested", "handoff/acqx-reuses-a-consumed-frame",
+								fmt.Sprintf("AcquireExisting(%s) called again although the only handoff frame carrying that id already started a tenure", e.LeaseID), e)
+						}
+					}
 				}
 				break
 			}
@@ -189,6 +197,16 @@ func monitors(cfg cfgT, log []event) (fails []fail, evals int) {
 					evals++
 					if !knownFrame(log, e.LeaseID) {
 						add("C08.handoff-only-to-requested", "handoff/acqx-without-frame", "AcquireExisting called with a lease id that no handoff frame carried: "+e.LeaseID, e)
+					}
+					// a handoff frame hands the lease over once: after the tenure it started has ended, the same
+					// frame must not be used to take the lease back (the node has given it to somebody else, or lost it)
+					evals++
+					if framesBefore(log[:i], e.LeaseID) <= acqxOK[e.LeaseID] {
+						add("C08.handoff-only-to-requested", "handoff/acqx-reuses-a-consumed-frame",
+							fmt.Sprintf("AcquireExisting(%s) called again although the only handoff frame carrying that id already started a tenure", e.LeaseID), e)
+					}
+					if e.A == "ok" {
+						acqxOK[e.LeaseID]++
 					}
 				}
 				if e.A == "ok" {
@@ -292,6 +310,18 @@ func monitors(cfg cfgT, log []event) (fails []fail, evals int) {
 
 // knownFrame reports whether the lease id was carried by a handoff frame of a stream the node
 // was given (the STREAM call event records the id its handoff frame carries).
+// framesBefore counts the handoff frames carrying lease id that the node has received so far.
+func framesBefore(log []event, id string) int {
+	n := 0
+	for i := range log {
+		e := &log[i]
+		if e.Ev == "call" && e.C == "STREAM" && len(e.A) >= 3 && e.A[len(e.A)-3:] == "/ho" && e.LeaseID == id && id != "" {
+			n++
+		}
+	}
+	return n
+}
+
 func knownFrame(log []event, id string) bool {
 	for i := range log {
 		e := &log[i]
